@@ -53,6 +53,7 @@ pub fn profile(attrs: bool) -> Profile {
     p.ov_sized_array = 5;
     p.private = 3;
     p.workgroup = 3;
+    p.ty.len_edges = 3;
     p
 }
 
@@ -99,6 +100,20 @@ fn value_expr(ty: &Ty, structs: &[StructDef], k: &mut u32, rt_len: u32, out_bits
         Ty::M { c, r, s } => {
             let cols: Vec<String> = (0..*c).map(|_| value_expr(&Ty::V(*r, *s), structs, k, rt_len, out_bits)).collect();
             format!("glam::Mat{c}::from_cols({})", cols.join(", "))
+        }
+        Ty::A(e, n) if *n > 64 && matches!(**e, Ty::S(Sc::F32 | Sc::I32 | Sc::U32)) => {
+            // a long array of scalars: the same consecutive patterns, computed by the probe itself
+            let Ty::S(sc) = **e else { unreachable!() };
+            let k0 = *k;
+            for i in 0..*n {
+                out_bits.push(pattern(sc, k0 + i));
+            }
+            *k += *n;
+            match sc {
+                Sc::F32 => format!("::core::array::from_fn(|i| f32::from_bits(0x4000_0000u32 + ({k0}u32 + i as u32) * 7919))"),
+                Sc::I32 => format!("::core::array::from_fn(|i| ((({k0}u32 + i as u32 + 1).wrapping_mul(0x0100_0193) | 0x0100_0000) as i32))"),
+                _ => format!("::core::array::from_fn(|i| (({k0}u32 + i as u32 + 1).wrapping_mul(0x0100_0193) | 0x0100_0000))"),
+            }
         }
         Ty::A(e, n) => {
             let els: Vec<String> = (0..*n).map(|_| value_expr(e, structs, k, rt_len, out_bits)).collect();
